@@ -40,7 +40,7 @@ def directed(rng: random.Random) -> dict:
     kind = rng.choice(["if_const", "if_undef", "for_bounds", "if_loopvar", "nested", "macro_if", "macro_for", "for_label", "else_chain",
                        "if_defines", "if_defines_label", "macro_if_defines", "for_shadow", "for_after", "macro_defined_in_if",
                        "macro_defined_in_empty_loop", "loop_state_per_iteration", "scope_in_loop", "loop_forward_label_shadow",
-                       "taken_branch_fails", "table_in_loop"])
+                       "taken_branch_fails", "table_in_loop", "loop_var_width_boundary", "block_argument_in_loop"])
     tables: dict = {}
     db = lambda *es: {"k": "data", "d": "db", "es": [e if isinstance(e, list) else E(e) for e in es]}  # noqa: E731
     if kind == "if_const":
@@ -140,6 +140,30 @@ def directed(rng: random.Random) -> dict:
         if rng.random() < 0.3:
             st = {"k": "if", "c": E(0), "t": [db(0xDD)], "e": bad}
         body += [db(0xAA), st, db(0xBB), {"k": "label", "n": "later_q9"}, db(0xCC)]
+    elif kind == "loop_var_width_boundary":
+        # an unsized operand that follows the loop variable across 0xFF/0x100 or 0xFFFF/0x10000: every iteration is its own statement
+        lo = rng.choice([0xFE, 0xFFFE, 0xFC])
+        m = rng.choice(["stz", "lda", "sta", "inc"]) if lo != 0xFFFE else rng.choice(["lda", "sta", "jmp"])
+        ins = {"k": "ins", "m": m, "shape": "dir", "sz": "", "e": E("itW")}
+        inner = [ins]
+        if rng.random() < 0.4:
+            inner = [{"k": "for", "v": "itV", "a": E(0), "b": E(2), "body": [{"k": "ins", "m": "lda", "shape": "dir", "sz": "", "e": E("itW", "+", "itV")}]}]
+        if rng.random() < 0.3:
+            inner = [{"k": "macro", "n": "touchm", "ps": ["pt"], "b": [{"k": "ins", "m": m, "shape": "dir", "sz": "", "e": E("pt")}]}, {"k": "call", "n": "touchm", "as": [E("itW")]}]
+        body += [{"k": "for", "v": "itW", "a": E(lo), "b": E(lo + 4), "body": inner}, db(0xEE)]
+    elif kind == "block_argument_in_loop":
+        # a code-block argument written inside a loop body is expanded anew in every iteration (it may look at the loop variable, open scopes,
+        # apply macros); a macro may also expand its block several times
+        blk = {"blk": [{"k": "if", "c": E("itK", "&", 1), "t": [db(E(0xF0, "+", "itK"))], "e": [db(E("itK"))]}]}
+        framed = {"k": "macro", "n": "framed", "ps": ["pcode"], "b": [db(2), {"k": "splice", "n": "pcode"}, db(3)]}
+        put = {"k": "macro", "n": "putm", "ps": ["pv"], "b": [db(E("pv"))]}
+        blk2 = {"blk": [{"k": "call", "n": "putm", "as": [E(0x11)]}, {"k": "ins", "m": "nop", "shape": "imp", "sz": "", "e": None},
+                        {"k": "block", "b": [{"k": "label", "n": "inb"}, {"k": "data", "d": "dw", "es": [E("inb")]}]}]}
+        repeat = {"k": "macro", "n": "repeatm", "ps": ["pn", "pbody"], "b": [{"k": "for", "v": "itR", "a": E(0), "b": E("pn"), "body": [{"k": "splice", "n": "pbody"}]}]}
+        parts = [[{"k": "for", "v": "itK", "a": E(0), "b": E(4), "body": [{"k": "call", "n": "framed", "as": [blk]}]}],
+                 [{"k": "call", "n": "repeatm", "as": [E(3), blk2]}], [{"k": "call", "n": "framed", "as": [blk2]}, {"k": "call", "n": "framed", "as": [blk2]}]]
+        chosen = rng.choice([[0], [1], [2], [0, 1, 2]])
+        body += [framed, put, repeat] + [st for i in chosen for st in parts[i]] + [db(0xEE)]
     elif kind == "table_in_loop":
         # a table loaded inside one iteration belongs to that iteration, exactly as in the block written out by hand
         tables = {"en.tbl": [["41", "A"], ["42", "B"]], "jp.tbl": [["a1", "A"], ["b1", "B"]]}
